@@ -281,15 +281,16 @@ class AsyncConnectionPool(AsyncRequestInterface):
         """
         A request that gives up waiting just as it is assigned a newly created
         connection leaves behind a connection that nobody is going to establish,
-        and that can never be reused, expire, or be evicted.
+        and that can never expire or be evicted. The same goes for a connection
+        that a failed request has left neither idle nor closed.
 
-        Remove such a connection from the pool, returning it so it can be closed.
+        Remove a connection that no other request is using from the pool,
+        returning it so it can be closed.
         """
         connection = pool_request.connection
         if (
             connection is None
             or connection not in self._connections
-            or connection.is_available()
             or connection.is_idle()
             or connection.is_closed()
             or any(r.connection is connection for r in self._requests)
